@@ -12,14 +12,14 @@ def build(repo, tier, seed):
                      "rejection lemmas: construct 2.10.70 combinator semantics as in C07-C09 (every model is replayed through the real decoder); layouts have a fixed structure with symbolic values",
                      "the P1 text decoder on a binary list: decode_p1_readout_content returns only for text without control octets (clause proved on the real function in the p1text group); every documented list starts with the "
                      "array / structure tag 0x01 / 0x02 (checked per layout), so it is refused - combining the two is a one-step argument made here, the bounded search genuine_fresh cross-checks it on the real code"]
-    r.not_decided = ["genuine P1 text given to the three frame decoders that precede the 'P1' entry is not examined symbolically (a data block starts with a printable character, the LLC header constant is 0xE6 0xE7 0x00); "
-                     "the bounded run of C11 (AutoDecoder agreement on generated blocks) covers it on the real code"]
+    r.not_decided = ["genuine P1 text against the three frame decoders is executed symbolically for texts of 0..10 and 24 octets over the text alphabet (every path is refused at the latest at the APDU date-time octet, offset 8); "
+                     "that longer texts take the same path (nothing beyond offset 9 is read before the refusal) is an argument, not an obligation; C11's bounded AutoDecoder-agreement run covers generated blocks on the real code"]
     r.explanation = ("C12: (1) per-call contract of decode_message_payload and decode_message from the real source with the decoder table read from the source (loop unrolled over its entries, symbolic remembered index): "
                      "None exactly when every decoder rejects; otherwise the dictionary of the first accepting decoder in cyclic order from the remembered one, hence the remembered one whenever it accepts; "
                      "previous_success_decoder names it, unchanged when nobody accepts; decode_message agrees with decode_message_payload(message.payload) (P1 readouts are decoded whole by the 'P1' entry); "
                      "the class invariant (index in range) makes the contract hold after every history. (2) Genuine messages: for each of the documented Aidon / Kaifa / Kamstrup lists (frame and bare body, values symbolic) every "
                      "binary decoder that a fresh AutoDecoder tries before the list's own decoder is executed symbolically through the grammar layer and shown to end in ConstructError / ValueError on every path (103 list x decoder "
-                     "pairs); with (1) and the decoders' own contracts (C07-C09) a fresh AutoDecoder, and one that remembers the same meter and form, returns the own decoder's dictionary.")
+                     "pairs, plus P1 text against the frame decoders); with (1) and the decoders' own contracts (C07-C09) a fresh AutoDecoder, and one that remembers the same meter and form, returns the own decoder's dictionary.")
     b = run.rt_call("C12", "genuine_fresh", {"seed": seed, "n": 40 if tier == "quick" else 1500})
     r.bounded.append(b if "name" in b else {"name": "genuine_fresh", "error": b.get("error", b)})
     return r
